@@ -3,7 +3,7 @@
    code of reshape.go, flatten.go, squeeze.go, unsqueeze.go, shape.go as repaired), S = the
    ONNX text as written in Check/CheckC07.v (reshape_spec ... shape_spec). *)
 From Coq Require Import List ZArith Bool String.
-From V Require Import DType Tensor Case OpCheck ShapeOps CheckC07 ShapeOpsProofs C07Payload C07Numel C07Numel2.
+From V Require Import DType Tensor Case OpCheck ShapeOps CheckC07 ShapeOpsProofs C07Payload C07Numel C07Numel2 C07Numel3.
 Import ListNotations.
 Open Scope Z_scope.
 
@@ -59,6 +59,15 @@ Theorem C07_reshape_keeps_count t shp v :
   reshape_spec t shp = SMust [Some v] -> total v = total t.
 Proof. exact (reshape_inferred_keeps_count t shp v). Qed.
 Print Assumptions C07_reshape_keeps_count.
+(* Unsqueeze for every axes tensor S accepts; Squeeze with explicit axes, also where S leaves
+   the choice open (duplicate axes: SEither) *)
+Theorem C07_unsqueeze_keeps_count t axes v :
+  unsqueeze_spec t axes = SMust [Some v] -> total v = total t.
+Proof. exact (unsqueeze_keeps_count t axes v). Qed.
+Theorem C07_squeeze_axes_keeps_count t a v :
+  squeeze_spec t (Some a) = SMust [Some v] \/ squeeze_spec t (Some a) = SEither [Some v] -> total v = total t.
+Proof. exact (squeeze_axes_keeps_count t a v). Qed.
+Print Assumptions C07_squeeze_axes_keeps_count.
 
 (* the known-finding class is real: the model (and the code) panic on it *)
 Example C07_shape_rank0_refuted :
